@@ -19,13 +19,14 @@ RULE = (
     "workloads {idle, one command in flight, four queued commands of mixed priority, reset in progress, start-up} x NCP "
     "version {4, 8, 13} (quick: 8) x every wire event of the fault-free run x {before, after} x failure kind {ERROR(0x51), "
     "ERROR(0x80), unsolicited RSTACK(0x02 power-on), RSTACK(0x03 watchdog), NCP silent, connection_lost(exc), EOF, "
-    "deliberate close()}; plus Hypothesis cases with a generated injection instant and optional line faults. "
+    "deliberate close()} x {no line noise, a stray XOFF, XOFF+XON from the NCP before the workload}; plus Hypothesis cases with a generated injection instant and optional line faults. "
     "Non-trivial = the injection happened while at least one call was pending; distinct by plan."
 )
 ASSUMPTIONS = [
     "an application is attached by registering one extra callback on EZSP (the statement's precondition)",
     "a silent NCP can only be noticed through traffic: the reset request is demanded only if the host wrote a DATA frame "
     "after the NCP went silent",
+    "stray XON/XOFF bytes are legal on an ASH line and are dropped by the receiver (UG101); the host never honours them",
     "bound for calls in progress: injection time + 10 s command timeout + 5 x 3.2 s link timeouts = 26 s of virtual time",
 ]
 
@@ -101,14 +102,22 @@ async def scenario(loop, plan, out):
         def start(name, coro):
             calls.append((name, asyncio.ensure_future(coro), loop.time()))
 
+        async def noise():
+            # stray software flow-control bytes from the NCP (legal on an ASH line; the receiver must drop them)
+            for b in plan.get("noise") or []:
+                stack.line.n2h.write(bytes([b]))
+                await asyncio.sleep(0.01)
+
         await ezsp.connect(use_thread=False)
         if wl == "startup":
+            await noise()
             arm_faults()
             base["g"] = stack.line.n_global
             start("startup_reset", ezsp.startup_reset())
         else:
             await ezsp.startup_reset()
             await asyncio.sleep(0.5)
+            await noise()
             arm_faults()
             base["g"] = stack.line.n_global
             if wl == "idle":
@@ -180,6 +189,8 @@ def check(plan) -> Result:
     inj = out["inj"]
     kind = plan["kind"]
     r.cls("workload:" + plan["workload"], "kind:" + kind)
+    if plan.get("noise"):
+        r.cls("flow-control-noise")
     if plan.get("at") is None and plan.get("at_time") is None:
         # fault-free reference run
         if out["resets"]:
@@ -232,8 +243,10 @@ def replay(plan) -> Result:
 
 
 def _worker_enum(ctx, job):
-    v, wl = job
+    v, wl, noise = job
     base = {"v": v, "workload": wl, "kind": "none"}
+    if noise:
+        base["noise"] = noise
     r0 = check(base)
     ctx.check(base, r0)
     if r0.violations:
@@ -246,6 +259,8 @@ def _worker_enum(ctx, job):
     for at, pos in points:
         for kind in KINDS:
             plan = {"v": v, "workload": wl, "kind": kind, "at": at, "pos": pos}
+            if noise:
+                plan["noise"] = noise
             ctx.check(plan, check(plan), sample=(kind == "silent" and at == 2))
     ctx.extra[f"wire_events_{wl}_v{v}"] = n
 
@@ -257,6 +272,8 @@ fate = st.one_of(st.just(["d"]), st.just(["d"]), st.just(["d"]), st.just(["x"]),
 def plans(draw):
     plan = {"v": draw(st.sampled_from([4, 5, 7, 8, 11, 13, 14])), "workload": draw(st.sampled_from(WORKLOADS)),
             "kind": draw(st.sampled_from(KINDS)), "at_time": draw(st.sampled_from([0.0001, 0.0015, 0.0021, 0.0042, 0.011, 0.3, 1.7, 2.9]))}
+    if draw(st.integers(0, 2)) == 0:
+        plan["noise"] = draw(st.lists(st.sampled_from([0x13, 0x11]), min_size=1, max_size=3))
     if draw(st.integers(0, 2)) == 0:
         plan["fh"] = draw(st.lists(fate, max_size=12))
         plan["fn"] = draw(st.lists(fate, max_size=12))
@@ -270,7 +287,7 @@ def _worker(ctx, n):
 def run(ctx):
     quick = ctx.tier == "quick"
     vs = [4, 8] if quick else list(range(4, 15))
-    jobs = [(v, wl) for v in vs for wl in WORKLOADS]
+    jobs = [(v, wl, noise) for v in vs for wl in WORKLOADS for noise in (None, [0x13], [0x13, 0x11])]
     ctx.parallel(_worker_enum, jobs)
     ctx.exhaustive["every wire event x before/after x 8 failure kinds for the listed workloads and versions"] = True
     ctx.parallel(_worker, [60] * 16 if quick else [5000] * 16)
